@@ -40,3 +40,4 @@ Proof.
 Qed.
 Lemma quiet_silent_lemma v f : may_write true v f = false.
 Proof. reflexivity. Qed.
+
